@@ -18,11 +18,13 @@ EXTENDS Integers, Sequences, FiniteSets, TLC, Json, IOUtils, SequencesExt, Finit
 Rec == ndJsonDeserialize(IOEnv.TRACE)
 PROP == IOEnv.PROP
 On(p) == PROP = p \/ PROP = "ALL"
+                  \/ (PROP = "C15" /\ p \in {"C03", "C04", "C05", "C06", "C07", "C08", "C09", "C10", "C11"})
 
 VARIABLES l,      \* next trace line
           cfg,    \* the Reset record of the current scenario
-          L       \* reference ledger state
-vars == <<l, cfg, L>>
+          L,      \* reference ledger state
+          ref     \* C15: <<scenario name, block count>> -> projection first observed (any index flags)
+vars == <<l, cfg, L, ref>>
 
 S == 5000      \* block subsidy in units (heights below the first halving)
 
@@ -76,7 +78,9 @@ RuneIdOf(runeOf, lab, own, ownLabel) ==
   ELSE IF lab = ownLabel THEN own
   ELSE <<1000000, 7>>
 
-NameClass(n) == IF Len(n) >= 27 THEN "reserved" ELSE IF Len(n) <= 11 THEN "below" ELSE "ok"
+\* the generators only use names of <= 4 letters (below the minimum at every height they reach),
+\* 13..26 letters (always etchable) and 27 letters (reserved); the schedule itself is C33
+NameClass(n) == IF Len(n) >= 27 THEN "reserved" ELSE IF Len(n) <= 4 THEN "below" ELSE "ok"
 
 \* the abstract transaction handed to RuneRules
 RuneTx(tx, st, h, k) ==
@@ -534,8 +538,31 @@ C37(o, sh) ==
           /\ Chk("C37.burned", Get(sh.burned, r) = E[r].burned, <<r, Get(sh.burned, r), E[r].burned>>)
      /\ Chk("C37.balances", liveBal = B, <<"shadow", liveBal, "index", B>>)
 
+\* ---- C15: optional indexes do not change inscription or rune results
+SatDerived == {"coin", "uncommon", "rare", "epic", "legendary", "mythic", "nineball", "palindrome"}
+Proj15(o) ==
+  [insc |-> IF cfg.flags.inscriptions
+            THEN [k \in 1..Len(o.insc) |->
+                    LET i == o.insc[k] IN
+                    [l |-> i.l, seq |-> i.seq, num |-> i.num, tx |-> i.tx, idx |-> i.idx, sp |-> i.sp,
+                     parents |-> i.parents, feeq |-> i.feeq, feer |-> i.feer, h |-> i.h,
+                     charms |-> SeqToSet(i.charms) \ SatDerived]]
+            ELSE <<>>,
+   runes |-> IF cfg.flags.runes THEN o.runes ELSE <<>>,
+   bal |-> IF cfg.flags.runes THEN ObsBal(o) ELSE <<>>]
+\* the parts of two projections that both configurations index must be equal
+Agree15(a, b) ==
+  /\ ((a.insc # <<>> /\ b.insc # <<>>) => a.insc = b.insc)
+  /\ (a.runes # <<>> /\ b.runes # <<>> => a.runes = b.runes /\ a.bal = b.bal)
+C15Step(o) ==
+  LET key == <<cfg.name, o.count>> IN
+  IF key \in DOMAIN ref
+  THEN /\ Chk("C15.agree", Agree15(ref[key], Proj15(o)), <<key, cfg.flagKey>>)
+       /\ ref' = ref
+  ELSE ref' = ref @@ (key :> Proj15(o))
+
 \* ---------------------------------------------------------------- the trace machine
-Init == l = 1 /\ cfg = <<>> /\ L = InitL
+Init == l = 1 /\ cfg = <<>> /\ L = InitL /\ ref = <<>>
 
 StateOk(o) ==
   /\ (On("C01") /\ cfg.flags.sats => C01(o))
@@ -555,18 +582,31 @@ StateOk(o) ==
 Next ==
   /\ l <= Len(Rec)
   /\ LET r == Rec[l] IN
-     CASE r.e = "Reset" -> cfg' = r /\ L' = InitL @@ [shadow |-> EmptyShadow]
+     CASE r.e = "Reset" -> cfg' = r /\ L' = InitL @@ [shadow |-> EmptyShadow] /\ UNCHANGED ref
        [] r.e = "Block" -> /\ Chk("trace.height", r.h = L.h + 1, r.h)
                            /\ L' = FoldBlock(L, r) @@ [shadow |-> L.shadow]
-                           /\ UNCHANGED cfg
+                           /\ UNCHANGED <<cfg, ref>>
+       [] r.e = "Skip" ->
+            \* r.k plain blocks (heights r.first ..) whose coinbase claims the whole subsidy; only the
+            \* listed coinbase outputs are spent later
+            /\ L' = [L EXCEPT !.h = L.h + r.k,
+                              !.u = Ext(@, [x \in {r.outs[i].label : i \in 1..Len(r.outs)} |->
+                                             LET i == CHOOSE j \in 1..Len(r.outs) : r.outs[j].label = x IN
+                                             << <<r.outs[i].h * S, (r.outs[i].h + 1) * S>> >>]),
+                              !.meta = Ext(@, [x \in {r.outs[i].label : i \in 1..Len(r.outs)} |->
+                                             LET i == CHOOSE j \in 1..Len(r.outs) : r.outs[j].label = x IN
+                                             [v |-> S, kind |-> "pay", script |-> "tr:" \o ToString(r.outs[i].s),
+                                              h |-> r.outs[i].h, t |-> "tr"]])]
+            /\ UNCHANGED <<cfg, ref>>
        [] r.e = "Update" -> /\ (On("C16") => Chk("C16.update", r.result = "ok", <<r.result, r.text>>))
-                            /\ UNCHANGED <<cfg, L>>
+                            /\ UNCHANGED <<cfg, L, ref>>
        [] r.e = "Events" -> /\ L' = [L EXCEPT !.shadow = EvFold(L.shadow, r.list, 1)]
-                            /\ UNCHANGED cfg
+                            /\ UNCHANGED <<cfg, ref>>
        [] r.e = "State" -> /\ Chk("trace.count", r.count = L.h + 1, <<r.count, L.h>>)
                            /\ StateOk(r)
+                           /\ (IF On("C15") THEN C15Step(r) ELSE UNCHANGED ref)
                            /\ UNCHANGED <<cfg, L>>
-       [] OTHER -> UNCHANGED <<cfg, L>>
+       [] OTHER -> UNCHANGED <<cfg, L, ref>>
   /\ l' = l + 1
 
 Spec == Init /\ [][Next]_vars
